@@ -562,3 +562,87 @@ Definition c02_producer_check (c : list (pact key Z) * result (list key * list (
       list_eqb key_eqb ocols cols && list_eqb row_eqb orows rows && list_eqb (list_eqb pair_eqb) ods ds
   | Raise _ => false
   end.
+
+(* ================= dictionaries whose keys are not all strings =================
+   DataFrame(dictionaries) (dataframe.py 79-87) names the columns  [str(k) for k in first_dict]  but extracts with
+   the key OBJECTS of the first dictionary:  keys = list(first_dict.keys());  row.get(k, None) for k in keys.
+   So a value stored under 1, (x, 1), None, b'k' or a date stays in its column, and the keys 1 and '1' of one
+   dictionary give two columns both named '1' that hold their own values.  append(dict) afterwards goes through the
+   row factory, whose fields are the column NAMES (strings): a key object matches a column only if it is that string.
+   An entry of a keyed dictionary is ((key object, str(key object)), value): lookups compare key objects, names
+   only label columns.  [inj name] is the key object that the string [name] is. *)
+Section Keyed.
+Variables PK K V : Type.
+Variable eqPK : forall a b : PK, {a = b} + {a <> b}.
+Variable vnone : V.
+Variable inj : K -> PK.
+
+Definition kdict := list ((PK * K) * V).
+
+(* the dictionary as Python sees it: key object -> value *)
+Definition kd_ident (d : kdict) : list (PK * V) := map (fun e => (fst (fst e), snd e)) d.
+(* the key objects, and their str() *)
+Definition kd_objs (d : kdict) : list PK := map (fun e => fst (fst e)) d.
+Definition kd_names (d : kdict) : list K := map (fun e => snd (fst e)) d.
+
+Definition keyed_frame (ds : list kdict) : list K * list (list V) :=
+  let first := match ds with [] => [] | d :: _ => d end in
+  (kd_names first, map (fun d => extract eqPK vnone (kd_objs first) (kd_ident d)) ds).
+
+(* append(dict): the row factory looks the column names up as strings *)
+Definition keyed_append (f : list K * list (list V)) (d : kdict) : list K * list (list V) :=
+  (fst f, snd f ++ [extract eqPK vnone (map inj (fst f)) (kd_ident d)]).
+
+Definition keyed_appends (f : list K * list (list V)) (ds : list kdict) := fold_left keyed_append ds f.
+
+(* a dictionary with string keys only, as a keyed dictionary *)
+Definition kd_of_dict (d : list (K * V)) : kdict := map (fun kv => ((inj (fst kv), fst kv), snd kv)) d.
+
+End Keyed.
+
+Arguments kd_ident {PK K V}. Arguments kd_objs {PK K V}. Arguments kd_names {PK K V}.
+Arguments keyed_frame {PK K V}. Arguments keyed_append {PK K V}. Arguments keyed_appends {PK K V}.
+Arguments kd_of_dict {PK K V}.
+
+(* key objects of the correspondence.  Equality is Python's ==/hash on dictionary keys: bool, int and integral
+   floats are one number (True == 1 == 1.0); str, bytes and None are only equal to themselves; every other
+   hashable (tuple, date, non-integral float, frozenset) is numbered per case by the harness with Python's own
+   equality. *)
+Inductive pkey :=
+| PKStr (s : list N)
+| PKNum (z : Z)
+| PKNone
+| PKBytes (b : list N)
+| PKObj (class : N).
+
+Definition pkey_dec : forall a b : pkey, {a = b} + {a <> b}.
+Proof.
+  decide equality; try apply (list_eq_dec N.eq_dec); try apply Z.eq_dec; apply N.eq_dec.
+Defined.
+
+Definition zkdict := list ((pkey * key) * Z).
+
+Record keyed_case := KeyedCase {
+  kc_dicts : list zkdict;
+  kc_appends : list zkdict;
+  ko_columns : result (list key);
+  ko_rows : result (list (list Z));
+  ko_columns_after : result (list key);
+  ko_rows_after : result (list (list Z));
+  ko_dicts_after : result (list (list (key * Z)))
+}.
+
+Definition keyed_model (c : keyed_case) :=
+  let f0 := keyed_frame pkey_dec 0%Z (kc_dicts c) in
+  let f1 := keyed_appends pkey_dec 0%Z PKStr f0 (kc_appends c) in
+  (f0, f1, map (as_dict key_dec (fst f1)) (snd f1)).
+
+Definition c02_keyed_check (c : keyed_case) : bool :=
+  let '(f0, f1, ds) := keyed_model c in
+  result_eqb (list_eqb key_eqb) (ko_columns c) (Ok (fst f0)) &&
+  result_eqb (list_eqb row_eqb) (ko_rows c) (Ok (snd f0)) &&
+  result_eqb (list_eqb key_eqb) (ko_columns_after c) (Ok (fst f1)) &&
+  result_eqb (list_eqb row_eqb) (ko_rows_after c) (Ok (snd f1)) &&
+  result_eqb (list_eqb (list_eqb pair_eqb)) (ko_dicts_after c) (Ok ds).
+
+Definition c02_keyed_show (c : keyed_case) := keyed_model c.
